@@ -131,12 +131,11 @@ def check(case, out):
             s, l = L.slogdet(A, **kw)
         else:
             s, l = None, L.logdet(A, **kw)
-    except AssertionError as e:
-        tn, where = oracle.exc_bucket(e)
-        out.refusals += 1
-        out.notes.append(f"refusal:{tn}@{where}")
-        return
     except Exception as e:
+        if oracle.is_contract_refusal(e):
+            out.refusals += 1
+            out.notes.append("refusal:" + oracle.exc_bucket(e)[1])
+            return
         out.fail("call", site, oracle.exc_man(e), e)
         return
     l = complex(np.asarray(l).reshape(-1)[0]) if np.size(l) == 1 else None
